@@ -112,6 +112,8 @@ def k_bytes(l1):
 
 def run(chk):
     prog, base = setup(chk)
+    from .common import state_shape
+    state_shape(chk, prog)
     chk.bounds = ["no bound: symbolic valid point in any projective representation; every limb representation via the field contracts"]
     chk.outside = ["round trip SetBytes(Bytes(P)) = P and canonical re-encoding follow by composing this contract with C04's (both discharged by solver); the composition argument itself is paper reasoning",
                    "z^(p-2) = 1/z (Fermat)"]
@@ -126,4 +128,5 @@ def run(chk):
 
 
 def safety_net(chk):
-    return bytes_battery(chk.seed)
+    from sym import ptreplay
+    return bytes_battery(chk.seed) or ptreplay.battery_receiver_history(chk.seed)
